@@ -18,7 +18,7 @@ Theorem C39_strain_measure_wrappers : forall w tr K0 K1 K2 p rdt0 s n sos,
   w_K r = (if (ret inner =? -1)%Z then WKUntouched
            else if (n <? 0)%Z then WKPrediction smf (prediction_kind (if v_pred_raw code_variant then K0 else Ke))
            else if (0 <? n)%Z then WKIntegration smf (integration_kind Ke) true else WKUntouched).
-Proof. exact (fun w => strain_wrapper_convention code_variant w _ _ _ _ _ _ _ _ _ eq_refl eq_refl). Qed.
+Proof. exact (fun w tr K0 K1 K2 p rdt0 s n sos => strain_wrapper_convention code_variant w tr K0 K1 K2 p rdt0 s n sos eq_refl eq_refl). Qed.
 Print Assumptions C39_strain_measure_wrappers.
 
 Theorem C39_finite_strain_wrapper : forall tr K0 K1 K2 p rdt0 s n sos,
@@ -30,5 +30,5 @@ Theorem C39_finite_strain_wrapper : forall tr K0 K1 K2 p rdt0 s n sos,
   (stress_measure K1 <> Cauchy ->
    w_flux r = (if (ret inner =? -1)%Z || (n <? 0)%Z then FluxUntouched else FluxWritten (stress_measure K1) FromState)) /\
   (stress_measure K1 = Cauchy -> w_flux r = if st_written inner then FluxWritten Cauchy FromState else FluxUntouched).
-Proof. exact (fun tr => finite_strain_wrapper_convention code_variant tr _ _ _ _ _ _ _ _ eq_refl). Qed.
+Proof. exact (fun tr K0 K1 K2 p rdt0 s n sos => finite_strain_wrapper_convention code_variant tr K0 K1 K2 p rdt0 s n sos eq_refl). Qed.
 Print Assumptions C39_finite_strain_wrapper.
